@@ -259,3 +259,8 @@ from contracts import c03 as _c03  # noqa: E402
 # the shipped Django contexts default to django_bcrypt_sha256: its first hash in a fresh process must be the one it verifies (shared with C03)
 CONTRACTS += [c for c in _c03.CONTRACTS if c.id == "bcrypt._NoBackend._calc_checksum"]
 MUTANTS.append(("to_unicode_for_identify: latin-1 fallback for non-UTF-8 bytes dropped", "passlib/utils/handlers.py", "        except UnicodeDecodeError:\n            return hash.decode(\"latin-1\")", "        except UnicodeDecodeError:\n            raise", "refute", "to_unicode_for_identify"))
+
+# ---- every wrapped scheme of a shipped context claims its own hashes, the hash of the EMPTY password included (bare prefix) ----
+from contracts import c01 as _c01pw  # noqa: E402
+
+CONTRACTS += [_c01pw.prefix_identify]
